@@ -1,5 +1,6 @@
 import SamVerif.Model.Scope
 import SamVerif.Model.ScopeSig
+import SamVerif.Model.C13Hint
 import Driver.ScopeIO
 import Driver.Util
 /-! Line-protocol driver for property C13 (model side).
@@ -42,6 +43,44 @@ def showIface (e : String × Sig.Iface String (Nat × Nat)) : String :=
     | .enum vs => "enum:" ++ "+".intercalate (vs.map fun (v : String × Nat) => s!"{v.1}/{v.2}")
   s!"{e.1}\{p{if i.priv then 1 else 0} t{i.ntparams} s{i.nsupers} {td} F[{showMembers i.functions}] M[{showMembers i.methods}]}"
 
+/-- reader for the `cls` shape dump: `s`, `c`, `( if OPT ARG )`, `( m ARG* )`, `( l BITS ARG )`,
+`( b OPT )` with OPT = `-` | ARG -/
+partial def parseArg : List String → Option (Hint.Arg × List String)
+  | "s" :: r => some (.simple, r)
+  | "c" :: r => some (.call, r)
+  | "(" :: "if" :: r =>
+    match parseOpt r with
+    | some (t, r1) =>
+      match parseArg r1 with
+      | some (e, ")" :: r2) => some (.ifElse t e, r2)
+      | _ => none
+    | none => none
+  | "(" :: "b" :: r =>
+    match parseOpt r with
+    | some (f, ")" :: r1) => some (.block f, r1)
+    | _ => none
+  | "(" :: "l" :: bits :: r =>
+    match parseArg r with
+    | some (b, ")" :: r1) =>
+      some (.lambda (if bits == "-" then [] else bits.toList.map (· == '1')) b, r1)
+    | _ => none
+  | "(" :: "m" :: r =>
+    let rec cases (acc : List Hint.Arg) : List String → Option (List Hint.Arg × List String)
+      | ")" :: r => some (acc.reverse, r)
+      | toks => match parseArg toks with
+        | some (a, r) => cases (a :: acc) r
+        | none => none
+    match cases [] r with
+    | some (cs, r1) => some (.matchE cs, r1)
+    | none => none
+  | _ => none
+where
+  parseOpt : List String → Option (Option Hint.Arg × List String)
+    | "-" :: r => some (none, r)
+    | toks => match parseArg toks with
+      | some (a, r) => some (some a, r)
+      | none => none
+
 def step (_ : Unit) (line : String) : Unit × String :=
   match words line with
   | "ssa" :: toks =>
@@ -52,6 +91,10 @@ def step (_ : Unit) (line : String) : Unit × String :=
     let tops := parseTops toks []
     let res := Sig.buildModule "init" (fun l k => (l, k)) tops
     ((), " ".intercalate (sortS (res.map showIface)))
+  | "cls" :: toks =>
+    match parseArg toks with
+    | some (a, _) => ((), if Hint.withoutHint a then "1" else "0")
+    | none => ((), "bad-dump")
   | _ => ((), "bad-op")
 
 end Driver.C13
